@@ -150,7 +150,8 @@ func (iv *Value) ValueFrom(value any) {
 			iv.ItemValue = string(data)
 		}
 		if rt.Kind() == reflect.String {
-			vv := value.(string)
+			// (a named string type is not a string for a type assertion)
+			vv := reflect.ValueOf(value).String()
 			var arr []any
 			if err := json.Unmarshal([]byte(vv), &arr); err != nil {
 				return
